@@ -325,3 +325,7 @@ func TestVerifC13RegressionsNull(t *testing.T) {
 		"null-related-resource-rule":   answer(`{"relatedResources":[null]}`, true),
 	})
 }
+
+func TestVerifC14Composite(t *testing.T) {
+	vs.Run(t, "C14", func(c *vs.Case) error { return vw.PropC14(c, compositeFactory, "composite") })
+}
